@@ -215,6 +215,10 @@ def _case(seed: int) -> Dict[str, Any]:
     with rt.trace_dir({0: evs}) as d:
         try:
             ta = rt.lib(fails, "load", inp, rt.load_analysis, d)
+            if seed % 3 == 1:
+                # a call history: the user decoded the trace's names in full before the analysis (Trace.decode_symbol_ids(use_shorten_name=False))
+                inp["decoded_before_the_analysis"] = "decode_symbol_ids(use_shorten_name=False)"
+                ta.t.decode_symbol_ids(use_shorten_name=False)
             g, success = rt.lib(fails, "critical_path_analysis", inp, ta.critical_path_analysis, rank=0, annotation="ProfilerStep", instance_id=inst, _allow=(AssertionError,))
             if not success:
                 return {"n_checks": 0, "fails": [], "nontrivial": False}
@@ -280,7 +284,11 @@ def _case(seed: int) -> Dict[str, Any]:
                     is_cls = (not s["is_start"]) and dd["is_start"] and int(attr) not in {n_["ev"] for n_ in nodes.values()}
                     bad("span_edge_attributed_event_covers_edge_on_same_thread", {"edge": (u, v), "src": s, "dest": dd, "attributed": int(attr), "attributed_span": (a["ts"], a["ts"] + a["dur"])},
                         "an event of the same thread/stream whose span contains [src.ts, dest.ts]", known=kf[0] if (kf and is_cls) else None)
-        # bound_by per row
+        # bound_by per row; the kernel's name is the FILE's (row id = position in the file), shortened as the library documents it
+        from hta.utils.utils import shorten_name
+        from hv import gen as _gen
+
+        file_name = {i: e["name"] for i, e in _gen.complete_events(evs)}
         for _, row in bd.iterrows():
             t = row["type"]
             if t == "critical_path_kernel_kernel_delay":
@@ -291,7 +299,7 @@ def _case(seed: int) -> Dict[str, Any]:
                 exp = ""
             elif row["stream"] < 0:
                 exp = "cpu_bound"
-            elif re.match(r"^nccl.*Kernel", str(row["s_name"])):
+            elif re.match(r"^nccl.*Kernel", shorten_name(file_name.get(int(row["event_idx"]), str(row["s_name"]))) if str(row["event_idx"]).lstrip("-").isdigit() else str(row["s_name"])):
                 exp = "gpu_communication_bound"
             else:
                 exp = "gpu_compute_bound"
